@@ -105,14 +105,17 @@ CHECKS = {
             "along the downward normal gets (d, a), is admissible iff 0 <= a <= L and no point of the line is closer than |d|; an "
             "arc starts at the start point, its tangent at parameter th dips by th with speed R = L/|t2-t1| (dip linear in "
             "arclength), a point offset d from the arc point of dip phi gets (d, R|phi-t1|) and no point of the circle is closer; "
-            "the chain reports an admissible piece with the previous lengths added. Tie: the extracted specification vs "
-            "World::distance_to_plane (tolerance 1 m + 1e-6 L; the implementation's 3-D frame and Newton foot are not modelled "
-            "yet, so the tie is a tolerance comparison, not bit-exact) and the four-clause membership vs the tag.",
-            "proof over Reals that the executable planar specification is normal distance/arclength + extracted-spec-vs-implementation comparison + membership oracle", "4 C06"),
+            "the chain reports an admissible piece with the previous lengths added; refinement: the straight-piece computation of "
+            "the model of distance_point_from_curved_planes equals the specification (arcs and the 3-D frame: executable "
+            "comparison only). Tie: SlabModel.v (the routine itself, Cartesian) vs World::distance_to_plane and SlabFeature.v vs "
+            "World::properties bit for bit (culling hook off); the extracted specification vs the implementation within "
+            "1 mm + 1e-9 L; the four-clause membership vs the tag on points aimed at the surface.",
+            "proof over Reals (specification = elementary construction; model refines it on straight pieces) + bit-exact model correspondence + spec-vs-implementation comparison + membership oracle", "4 C06 / 9.3"),
     "C07": ("Theorems (Properties_C07.v, over exact reals): inside a triangle the interpolated depth lies between the extreme nodal "
             "values, so the global min/max pre-test never rejects what the local test accepts; the pruned kd search returns a true "
-            "nearest centroid. Not a theorem yet: sufficiency of the slab/fault bounding box and depth cut-off (decided by the "
-            "hook oracle). Tie/search: every world built twice in one process, culling as computed vs switched off by the "
+            "nearest centroid; the slab/fault depth cut-off (min depth + total length + thickness) is sufficient for chains of "
+            "straight pieces. Not a theorem: arcs, the surface bounding box, spherical worlds (decided by the hook oracle). "
+            "Tie/search: every world built twice in one process, culling as computed vs switched off by the "
             "GWB_VERIF hook, bit-identical answers required around and below the feature.",
             "proof over Reals for the surface pre-test and kd search + culling on/off oracle through the GWB_VERIF hook", "4 C07"),
     "C08": ("Theorems (Properties_C08.v, over exact reals): orientation tests, on-segment tests and scalar products of coordinate "
@@ -130,10 +133,11 @@ CHECKS = {
             "repeating the default segments as a section entry for every coordinate, build the same table; an override changes "
             "the row of its own coordinate only, hence anything computed from the two rows next to the foot is unchanged "
             "elsewhere; [R] section_interp is the convex combination (1-f)a+fb, equals a at f=0 and b at f=1 and stays between "
-            "them. The layout model is tied to parameters.cc/subducting_plate.cc/fault.cc only through the oracle (the slab "
-            "evaluation is not modelled yet): equivalent re-layouts and single-coordinate overrides run on the implementation, "
-            "bit-identical answers required (away from the overridden coordinate's two intervals, taken from the trench foot).",
-            "proof about the layout/inheritance model + re-layout and override-locality oracle on the implementation", "4 C10"),
+            "them. Tie: SlabFeature.v builds its per-coordinate table through SlabLayout.table and uses section_interp for every "
+            "interpolated quantity; it is compared with the implementation bit for bit on the base and the overridden world "
+            "(Cartesian). Search: equivalent re-layouts and single-coordinate overrides on the implementation (both coordinate "
+            "systems), bit-identical answers required away from the overridden coordinate's two intervals.",
+            "proof about the layout/inheritance model + bit-exact correspondence of the slab/fault evaluation built on it + re-layout and override-locality oracle", "4 C10 / 9.3"),
     "C13": ("Theorems (Properties_C13.v, axiom-free, for every number interpretation): World::properties as modelled has "
             "exactly two outcomes, a std::exception or a vector of the announced size, and every entry of the vector is finite as "
             "soon as the background values are finite and every model maps finite blocks to finite blocks (the slot machinery "
